@@ -21,10 +21,27 @@ func format(tr *tokenReader, w io.Writer) error {
 		}
 		t := tr.Token()
 		switch t.kind {
+		case tokenKindImport:
+			// import "<path>"
+			importBytes := append(t.concrete, ' ')
+			tr.Next()
+			importBytes = append(importBytes, tr.Token().concrete...)
+			importBytes = append(importBytes, '\n')
+			ew.SafeWrite(importBytes)
+			newlineBeforeNextRecord = true
 		case tokenKindOpenSquare:
 			if newlineBeforeNextRecord {
 				ew.SafeWrite([]byte{'\n'})
 			}
+			tr.Next()
+			if tr.Token().kind == tokenKindFlags {
+				// [flags]: next token is ']'
+				tr.Next()
+				ew.SafeWrite([]byte("[flags]\n"))
+				newlineBeforeNextRecord = false
+				break
+			}
+			tr.UnNext()
 			// opcode, next tokens are 'opcode', '(', hex or string lit, ')', ']'
 			opCodeBytes := t.concrete
 			for j := 0; j < 5; j++ {
@@ -84,12 +101,14 @@ func format(tr *tokenReader, w io.Writer) error {
 }
 
 func formatEnum(tr *tokenReader) []byte {
-	// enum <ID> {\n
+	// enum <ID> [: <TYPE>] {\n
 	enumBytes := tr.Token().concrete
-	for j := 0; j < 2; j++ {
+	for tr.Next() {
 		enumBytes = append(enumBytes, ' ')
-		tr.Next()
 		enumBytes = append(enumBytes, tr.Token().concrete...)
+		if tr.Token().kind == tokenKindOpenCurly {
+			break
+		}
 	}
 	enumBytes = append(enumBytes, '\n')
 
@@ -114,14 +133,20 @@ tokenLoop:
 			deprecatedBytes = append(deprecatedBytes, '\n')
 			enumBytes = append(enumBytes, deprecatedBytes...)
 		case tokenKindIdent:
-			// <ID> = <NUM>;
+			// <ID> = <NUM or bit flag expression>;
 			optBytes := append([]byte{'\t'}, t.concrete...)
-			for j := 0; j < 2; j++ {
-				optBytes = append(optBytes, ' ')
-				tr.Next()
-				optBytes = append(optBytes, tr.Token().concrete...)
+			afterOpenParen := false
+			for tr.Next() {
+				ot := tr.Token()
+				if ot.kind == tokenKindSemicolon {
+					break
+				}
+				if !afterOpenParen && ot.kind != tokenKindCloseParen {
+					optBytes = append(optBytes, ' ')
+				}
+				optBytes = append(optBytes, ot.concrete...)
+				afterOpenParen = ot.kind == tokenKindOpenParen
 			}
-			tr.Next()
 			optBytes = append(optBytes, []byte(";\n")...)
 			enumBytes = append(enumBytes, optBytes...)
 		case tokenKindCloseCurly:
@@ -353,13 +378,15 @@ func formatType(tr *tokenReader) []byte {
 		typeBytes = append(typeBytes, tr.Token().concrete...)
 	}
 
-	// ...[]?
-	tr.Next()
-	if tr.Token().kind == tokenKindOpenSquare {
+	// ...[]? (any number of dimensions)
+	for {
+		tr.Next()
+		if tr.Token().kind != tokenKindOpenSquare {
+			tr.UnNext()
+			break
+		}
 		tr.Next()
 		typeBytes = append(typeBytes, []byte("[]")...)
-	} else {
-		tr.UnNext()
 	}
 
 	return typeBytes
